@@ -527,8 +527,37 @@ class RogueConn(refdc.Conn):
         return None
 
 
+class Rogue135(refdc.Conn):
+    """everything on port 135: an honest endpoint mapper that names port 135 for ISD_KEY, and - on the same or on a new connection -
+    a rogue ISD_KEY service without the session key that accepts any bind and answers GetKey in the clear with its own envelope"""
+
+    def on_pdu(self, raw: bytes):
+        d = rpc.decode(raw, strict=False)
+        isd = d["ptype"] in (rpc.BIND, rpc.ALTER_CONTEXT) and any(ab == rpc.ISD_KEY for _, ab, _ in d["contexts"])
+        if d["ptype"] == rpc.BIND and not isd:
+            return super().on_pdu(raw)  # the honest EPM part
+        if d["ptype"] in (rpc.BIND, rpc.ALTER_CONTEXT):
+            self.log(dir="c2s", what="isd-bind-on-135", pdu=d)
+            self.isd_bound = True
+            right = rpc.BIND_ACK if d["ptype"] == rpc.BIND else rpc.ALTER_CONTEXT_RESP
+            res = [(0, 0, rpc.NDR64)] + [(3, 3, refdc.NIL)] * (len(d["contexts"]) - 1)
+            a = d["auth"]
+            auth = None if a is None else dict(type=a["type"], level=a["level"], ctx=a["ctx"], token=b"SRV-135")
+            return rpc.enc_ack_like(right, 3 | (d["flags"] & rpc.PFC_SIGN), d["call_id"], res, auth, b"135\x00" if d["ptype"] == rpc.BIND else b"")
+        if d["ptype"] == rpc.REQUEST and getattr(self, "isd_bound", False):
+            self.dc.rogue_saw_request = d
+            from ref import dtyp as _d
+
+            return rpc.enc_response(d["call_id"], d["ctx_id"], evil_stub(self.dc.rogue_st, "other", self.dc.rogue_op, _d.target_sd(_d.parse_sid_string(SID))))
+        return super().on_pdu(raw)
+
+
 class RogueDC(refdc.DC):
     def connect(self, host, port):
+        if self.rogue_mode == "port135" and port == 135:
+            c = Rogue135(self, "epm", host, port)
+            self.conns.append(c)
+            return c
         if port == self.isd_port:
             c = RogueConn(self, self.rogue_mode, self.rogue_st)
             self.conns.append(c)
@@ -540,7 +569,7 @@ def run_rogue(seed: int, op: str, api: str, mode: str, sec: str, acc) -> None:
     import dpapi_ng
 
     st = setup(seed)
-    dc = RogueDC([st["rk"]], now=NOW)
+    dc = RogueDC([st["rk"]], now=NOW, isd_port=135 if mode == "port135" else 49664)
     dc.rogue_mode, dc.rogue_st, dc.rogue_op, dc.rogue_saw_request = mode.split("+")[0] if not mode.endswith("+keep-trailer") else mode, st, op, None
     case = ["rogue", op, api, mode, sec]
     import contextlib
@@ -607,7 +636,7 @@ def run_shard(shard, tier, seed, acc) -> None:
         n = 0
         for op in ("protect", "unprotect"):
             for api in ("sync", "async"):
-                for mode in ("no-trailer", "empty-token", "garbage-token", "echo-token", "no-trailer+keep-trailer", "empty-token+keep-trailer"):
+                for mode in ("no-trailer", "empty-token", "garbage-token", "echo-token", "no-trailer+keep-trailer", "empty-token+keep-trailer", "port135"):
                     for sec in ("scripted", "scripted2", "ntlm"):
                         run_rogue(seed, op, api, mode, sec, acc)
                         n += 1
